@@ -17,8 +17,12 @@ CHECKS = {
          "every byte after the name / first `=`), cluster law (-abc = -a -b -c), tokens computed item by item, take_arg "
          "treats separated and attached values alike and returns the token bytes, byte-exact conversion for OsString/PathBuf/"
          "String; the multibyte `-ж=v` failure is proved as a _refuted witness (known finding). Whole-run respelling "
-         "invariance is partial: decided by the metamorphic oracle (every occurrence respelled into every admissible "
-         "spelling, clusters) and the differential run." + DIFF,
+         "invariance: C02_respelling_tree -- on whole conventional subcommand trees two vectors whose token lists differ only by "
+         "spelling (relation Resp: adjacent bit, recorded text, which name of an item is used, Word vs ArgWord in value "
+         "position; level by level through the tree) get the same verdict from the grammar and hence (C01_conformance) the same "
+         "value or both an error on stderr; for parsers outside the fragment it is decided by the metamorphic oracle (every "
+         "occurrence respelled into every admissible spelling, clusters; ASCII vs non-UTF-8 value of an OsString/PathBuf "
+         "argument) and the differential run." + DIFF,
          "4/C02", "Rocq proof (tokenizer/leaf laws) over a hand-written model + differential correspondence + respelling oracle"),
  "C05": ("proof", "Theorems in coq/Props/C05.v, for EVERY parser of the model AST (all combinators, any nesting, `any` included): "
          "if run_subparser / run_inner yields a value then the ghost consumption log is a duplicate-free cover of all items, "
